@@ -9,7 +9,7 @@ in : `proj method=… N=8 D=3 d=2 exact=1 data=<N rows of D> q=<Q rows of D> nq=
           P=<D rows of d> mu=<D> Y=<N rows of d> T=<N rows of d> Q=<Q rows of d>`
      `T` row i = `output.projection(x_i)`, `Q` row r = `output.projection(q_r)`;
      `comb` entry r = `i:j:a` says that query r is the exact convex/affine combination `a·x_i + (1−a)·x_j`.
-out: `train=… mean=… unseen=… affine=… cmp=exact:<n>,approx:<m>`
+out: `train=… mean=… unseen=… affine=… pure=… cmp=exact:<n>,approx:<m>`
 -/
 open TapkeeVerif TapkeeVerif.Util TapkeeVerif.DriverUtil
 
@@ -64,10 +64,31 @@ def answerProj (fs : List (String × String)) : String :=
         | _ => false
       let ncomb := (combs.filter Option.isSome).length
       let affTxt := if affBad.isEmpty then s!"ok:{ncomb}" else s!"FAIL-not-affine:query{(affBad.head?.map (·.1)).getD 0}"
+      -- 5. the function is PURE: combinations evaluated by the implementation in ONE expression (`C`), a result held by
+      --    reference across a later application (`E`), a difference of two applications (`Dm`)
+      let pureTxt :=
+        match get "C" >>= parseMat nq d, get "E" >>= parseVec d, get "Dm" >>= parseVec d with
+        | some C, some E, some Dm =>
+          let cBad := (List.finRange nq).any fun r =>
+            match combA[r.1]? with
+            | some (some c) =>
+              (List.finRange d).any fun k => absR (C.get r k - Q.get r k) > εtight * scale * one (absR c.a)
+            | _ => false
+          if cBad then "FAIL-combination-in-one-expression"
+          else if h : 0 < N then
+            let i0 : Fin N := ⟨0, h⟩
+            let il : Fin N := ⟨N - 1, by omega⟩
+            if (List.finRange d).any fun k => absR (E.get k - T.get i0 k) > εtight * scale then
+              "FAIL-earlier-result-changed-by-a-later-application"
+            else if (List.finRange d).any fun k => absR (Dm.get k - (T.get i0 k - T.get il k)) > εtight * scale then
+              "FAIL-difference-of-two-applications"
+            else "ok"
+          else "ok"
+        | _, _, _ => "missing"
       let tag (c : Cmp) : String := if exact && !c.isExact then "INEXACT-" ++ c.show else c.show
       let cs := [ctrain, cmean, ct, cq]
       let nexact := (cs.filter Cmp.isExact).length
-      s!"train={ctrain.show} mean={tag cmean} unseen={unseenTxt} affine={affTxt} cmp=exact:{nexact},approx:{cs.length - nexact + ncomb}"
+      s!"train={ctrain.show} mean={tag cmean} unseen={unseenTxt} affine={affTxt} pure={pureTxt} cmp=exact:{nexact},approx:{cs.length - nexact + ncomb}"
     | _, _, _, _, _, _, _, _ => "bad-observation"
   | _, _, _, _, _ => "bad-case"
 
